@@ -103,6 +103,9 @@ def solve(A: LinearOperator, B: torch.Tensor, E: Union[torch.Tensor, None] = Non
             is_hermit = A.is_hermitian and (M is None or M.is_hermitian)
             method = "cg" if is_hermit else "bicgstab"
 
+    if isinstance(method, str):
+        method = method.lower()  # method names are case-insensitive
+
     if method == "exactsolve":
         return exactsolve(A, B, E, M)
     else:
